@@ -117,6 +117,18 @@ def gen_case(rng, ndim=None, inner=None, outer=None, steady=None, const_mat=None
                 angle=0.0, bc_nt=nt)
 
 
+def _tent(ks, v):
+    """piecewise-linear table equal to v at every knot of ks, 1.5 v halfway between knots, 0.5 v / 1.6 v outside"""
+    Ts, hs = [-1.0e5, ks[0] - 200.0], [0.5 * v, 0.5 * v]
+    for a, b in zip(ks, ks[1:] + [None]):
+        Ts.append(a); hs.append(v)
+        if b is not None:
+            Ts.append(0.5 * (a + b)); hs.append(1.5 * v)
+    Ts += [ks[-1] + 200.0, 1.0e5]
+    hs += [1.6 * v, 1.6 * v]
+    return np.array(Ts), np.array(hs)
+
+
 def build(case):
     """real srlife objects for a case: (tube, material, fluid)"""
     receiver, thermal, materials = mods()
@@ -160,7 +172,19 @@ def build(case):
     other = 2.0 * case.film + 1.0
     table = {"default": case.film} if sel == 0 else ({"mat": case.film, "default": other} if sel == 1
                                                      else {"default": other, "mat": case.film})
-    if int(round(case.film * 64)) % 2 == 0:
+    knots = None
+    if getattr(case, "film_tdep", False):
+        vals = [np.unique(np.asarray(d, dtype=float)) for kd, d in ((case.inner, case.inner_data), (case.outer, case.outer_data))
+                if kd == "conv"]
+        if vals and sum(len(v) for v in vals) <= 4:
+            knots = np.concatenate(vals)
+    if knots is not None:
+        # a film coefficient that DEPENDS on temperature: the documented evaluation point of a ConvectiveBC is the
+        # fluid temperature, so the table takes the value `film` at every fluid temperature of the case and very
+        # different values (0.5x .. 1.6x) between and around them (where the wall temperatures are)
+        ks = sorted(set(float(v) for v in knots))
+        fluid = materials.PiecewiseLinearFluidMaterial({k: _tent(ks, v) for k, v in table.items()})
+    elif int(round(case.film * 64)) % 2 == 0:
         fluid = materials.ConstantFluidMaterial(table)
     else:
         fluid = materials.PiecewiseLinearFluidMaterial({k: (np.array([-1.0e5, 1.0e5]), np.array([v, v])) for k, v in table.items()})
